@@ -155,3 +155,41 @@ func TestC13_CounterEqualsTotal(t *testing.T) {
 		r.Sample(c)
 	})
 }
+
+
+// TestC13_SharingDense: files over two chunk templates (every file shares blocks with others) and
+// histories dominated by cached downloads and deletes, so that chunks are removed under a file
+// context other than the one they were cached under.
+func TestC13_SharingDense(t *testing.T) {
+	r := evid.Get(id)
+	evid.Finish(t, r)
+	evid.Checks(60)
+	rapid.Check(t, func(t *rapid.T) {
+		var c kase
+		c.H = nlhist.Gen(t, nlhist.GenOptions{MaxFiles: 4, MaxOps: 12, MaxBlocks: 2,
+			Kinds: []string{"fetch", "fetch", "fetch", "fetch", "delete", "delete", "delete", "upload", "gc", "restart", "pin", "unpin"}})
+		for i := range c.H.Files {
+			for j := range c.H.Files[i].Tags {
+				c.H.Files[i].Tags[j] %= 2
+			}
+			if len(c.H.Files[i].Tags) == 0 {
+				c.H.Files[i].Tags = []int{i % 2}
+			}
+			c.H.Files[i].Salt = i
+			if c.H.Files[i].Tail == 0 {
+				c.H.Files[i].Tail = 9
+			}
+		}
+		c.H.Ops = append(c.H.Ops, nlhist.Op{K: "restart"})
+		sig, err, st := run(c)
+		if err != nil {
+			t.Fatalf("%s", evid.Violation(id, sig, fmt.Sprintf("%v\ncase=%+v", err, c)))
+		}
+		cls := []string{"sharing-dense"}
+		for k := range st.classes {
+			cls = append(cls, k)
+		}
+		r.Case(evid.Hash64("dense", c), true, cls...)
+		r.Sample(c)
+	})
+}
